@@ -32,7 +32,8 @@ RULE = ("request streams played from the daemon side (command, nonfatal flag, cw
         "__ebd_ipc_cmd, __ebd_read_array and __ipc_exit against run_generic_phase with the real helper objects; bash appends the "
         "exit status it received after every call; judged: every step before a fatal failure answered once and in order, status "
         "0 iff the request was constructed to succeed (and then its entries are in the image), nonfatal failures return "
-        "non-zero and the script goes on, a fatal failure ends the build and nothing after it runs, and the processor pkgcore "
+        "non-zero and the script goes on, a fatal failure is never seen as success by bash and fails the build (the daemon is "
+        "killed asynchronously, so what the script still does before it dies is only counted), and the processor pkgcore "
         "hands out next answers a metadata request with the right package's data.")
 ASSUMPTIONS = [
     "the processor object (read/write/lock/shutdown_processor) and the operation object are stubs; write() renders "
